@@ -294,7 +294,9 @@ func (s *state) contractEnv(fc *funcContract, fn *ssa.Function, args []Val, resu
 	}
 	if fc != nil && fc.decl != nil && args != nil {
 		i := 0
-		if fc.decl.Recv != nil {
+		if fc.decl.Recv != nil && !(fn != nil && fn.Parent() != nil) {
+			// (the header of a closure inside a method names the method's receiver type only
+			// to identify the closure: the receiver is not an argument of the closure)
 			for _, f := range fc.decl.Recv.List {
 				for _, n := range f.Names {
 					if i < len(args) {
@@ -395,13 +397,29 @@ func (s *state) exec(b *ssa.BasicBlock, pred *ssa.BasicBlock, start int) {
 
 func (s *state) endPath() { s.u.npaths++ }
 
+// loopSpecFor: the loop clauses for loop ord of fn - for an inlined callee the ones the unit's
+// contract gives (`loop Callee.k ...`), otherwise the function's own
+func (u *unit) loopSpecFor(fn *ssa.Function, ord int) *loopSpec {
+	if fn != u.fn && u.ct != nil && u.ct.inlLoops != nil {
+		if m := u.ct.inlLoops[funcKey(fn)]; m != nil {
+			if ls := m[ord]; ls != nil {
+				return ls
+			}
+		}
+	}
+	if fc := u.eng.contractFor(fn); fc != nil {
+		return fc.loops[ord]
+	}
+	return nil
+}
+
 // enterCut starts the exploration of a cut loop from a generic state: the
 // invariant is assumed for arbitrary values of everything defined before
 func (s *state) enterCut(b *ssa.BasicBlock) {
 	u := s.u
 	fn := b.Parent()
 	li := loopFor(fn, b)
-	spec := u.eng.contractFor(fn).loops[li.ord]
+	spec := u.loopSpecFor(fn, li.ord)
 	e := s.contractEnv(nil, fn, nil, nil)
 	e.useNames = true
 	e.pkg = fn.Pkg.Pkg
@@ -459,10 +477,7 @@ func (s *state) loopHeader(b, pred *ssa.BasicBlock) bool {
 	u := s.u
 	fn := b.Parent()
 	li := loopFor(fn, b)
-	var spec *loopSpec
-	if fc := u.eng.contractFor(fn); fc != nil {
-		spec = fc.loops[li.ord]
-	}
+	spec := u.loopSpecFor(fn, li.ord)
 	back := b.Dominates(pred)
 	if spec != nil && spec.unroll > 0 {
 		if !back {
